@@ -195,6 +195,9 @@ pub struct PutSpec {
     pub dst_name: String,
     pub requests: Vec<ReqSpec>,
     pub messages: Vec<Vec<u8>>,
+    /// fire and forget: the user drops the channel on which the daemon answers the Put with the transaction id
+    #[serde(default)]
+    pub forget: bool,
 }
 
 #[derive(Clone, Debug, Serialize, Deserialize, PartialEq, Eq, Hash)]
@@ -272,6 +275,8 @@ pub enum ActionKind {
     Report { put: usize },
     /// hand these bytes to `to`'s transport as if they had arrived from `as_from`
     Inject { to: usize, as_from: usize, bytes: Vec<u8> },
+    /// the owner of the source file of a Put rewrites it in place while the transfer runs: same length, every byte changed
+    RewriteSource { put: usize },
 }
 
 #[derive(Clone, Debug, Serialize, Deserialize, PartialEq, Eq, Hash)]
@@ -768,6 +773,7 @@ async fn run_async(sc: &Scenario, roots: Vec<PathBuf>) -> Trace {
     let sh = shared.clone();
     let inbox_c = inbox_tx.clone();
     let prim_c = prim_tx.clone();
+    let roots_c = roots.clone();
     let healed_c = healed.clone();
     let put_ids: Vec<TransactionID> = (0..sc.puts.len()).map(|k| sc.put_id(k)).collect();
     let put_ids_c = put_ids.clone();
@@ -948,12 +954,16 @@ async fn run_async(sc: &Scenario, roots: Vec<PathBuf>) -> Trace {
                                 if let Some(Some(tx)) = prim_c.get(p.from) {
                                     let _ = tx.try_send(UserPrimitive::Put(req, otx));
                                 }
-                                let sh2 = sh.clone();
-                                tokio::spawn(async move {
-                                    if let Ok(id) = orx.await {
-                                        sh2.lock().unwrap().trace.put_ids[idx] = Some(id);
-                                    }
-                                });
+                                if p.forget {
+                                    drop(orx);
+                                } else {
+                                    let sh2 = sh.clone();
+                                    tokio::spawn(async move {
+                                        if let Ok(id) = orx.await {
+                                            sh2.lock().unwrap().trace.put_ids[idx] = Some(id);
+                                        }
+                                    });
+                                }
                                 sh.lock().unwrap().trace.cmds.push((t, p.from, format!("Put#{idx}")));
                             }
                             Event::Act { idx } => {
@@ -977,6 +987,16 @@ async fn run_async(sc: &Scenario, roots: Vec<PathBuf>) -> Trace {
                                             sh2.lock().unwrap().trace.probes.push(Probe { t, entity, id, alive: report.is_some(), report });
                                         });
                                         Some(UserPrimitive::Report(id, otx))
+                                    }
+                                    ActionKind::RewriteSource { put } => {
+                                        let p = &sc.puts[*put];
+                                        let path = roots_c[p.from].join(&p.src_name);
+                                        if let Ok(old) = std::fs::read(&path) {
+                                            let new: Vec<u8> = old.iter().map(|b| !*b).collect();
+                                            let _ = std::fs::write(&path, new);
+                                        }
+                                        sh.lock().unwrap().trace.cmds.push((t, p.from, format!("RewriteSource#{put}")));
+                                        None
                                     }
                                     ActionKind::Inject { to, as_from, bytes } => {
                                         let mut g = sh.lock().unwrap();
